@@ -831,6 +831,13 @@ class Node:
             assert not self.is_clone()
 
         if keep_children:
+            # Check the unique constraint for all children before moving any
+            for c in self.children:
+                for n in self._parent.children:
+                    if n is not self and n._data_id == c._data_id:
+                        raise UniqueConstraintError(
+                            "Node.data already exists in parent"
+                        )
             for c in self.children.copy():
                 c.move_to(self._parent, before=self)
         else:
